@@ -1285,6 +1285,101 @@ def kman_part(run, r, runner, n):
         run.mismatch("k-moving-manifold", "model run", len(where), len(mout))
 
 
+def script_part(run, r, runner, n):
+    """entry points other than the engine step: colvarmodule::energy_difference (replica exchange) on harmonic / linear
+    restraints with fixed parameters - the alternative energy minus the current one, nothing changed afterwards - tied to
+    the model's rediff; and `cv bias r update` (recorded findings: it runs the whole step again)."""
+    cases = []
+    for k in range(n):
+        kind = r.choice(["harmonic", "harmonic", "linear"])
+        nv = r.choice([1, 2])
+        vars_ = []
+        for i in range(nv):
+            v = {"w": r.choice(WIDTHS), "per": False}
+            if kind == "harmonic" and r.random() < 0.4:
+                v.update(per=True, P=r.choice([4.0, 8.0]), wc=r.choice([0.0, 1.0, -2.5]))
+            vars_.append(v)
+        c = {"kind": kind, "vars": vars_, "mode": "none", "k": r.choice([0.5, 1.0, 2.0, 3.0]), "accw": False, "dec": False, "lexp": 1.0,
+             "centers": [V.dyadic(r, -3, 3, bits=2) for _ in vars_],
+             "k2": r.choice([None, 0.25, 4.0, 1.5]), "c2": None, "xs": [[V.dyadic(r, -5, 5, bits=3) for _ in vars_] for _ in range(3)]}
+        if r.random() < 0.6 or c["k2"] is None:
+            c["c2"] = [V.dyadic(r, -3, 3, bits=2) for _ in vars_]
+        cases.append(c)
+    scn = []
+    for k, c in enumerate(cases):
+        L = ["echo CASE %d" % k, "natoms %d" % len(c["vars"]), "new", "capture", "config EOF"] + config_text(c) + ["EOF", "show atomf 0 cv 0 energy 0 bias 0"]
+        alt = []
+        if c["k2"] is not None:
+            alt += ["forceConstant", "%r" % c["k2"], "|"]
+        if c["c2"] is not None:
+            alt += ["centers"] + ["%r" % x for x in c["c2"]] + ["|"]
+        for j, xs in enumerate(c["xs"]):
+            for i, x in enumerate(xs):
+                L.append("pos %d 0 0 %s" % (i + 1, hx(x)))
+            L += ["step", "rdump"]
+            if j == 1:
+                L += ["ediff r " + " ".join(alt), "rdump"]
+        L.append("echo END %d" % k)
+        scn += L
+    # recorded findings: `cv bias r update` in the middle of a step
+    base = colvar_block(0, {"w": 0.5, "per": False})
+    scn += ["echo CASE %d" % n, "natoms 1", "new", "capture", "config EOF"] + base + ["harmonic {", "  name r", "  colvars v0", "  centers 1.0", "  forceConstant 2.0",
+            "  targetForceConstant 4.0", "  targetNumSteps 2", "  targetNumStages 2", "}", "EOF", "show atomf 0 cv 0 energy 0 bias 0", "pos 1 0 0 %s" % hx(0.5)] + \
+           ["step", "rdump"] * 3 + ["script cv bias r update", "rdump", "echo END %d" % n]
+    rc2, iout, e2 = V.run_lines(runner.unit, scn, cwd=runner.scratch)
+    impl = parse_impl(iout)
+    ed = {}
+    cur = None
+    for l in iout:
+        if l.startswith("echo CASE"):
+            cur = int(l.split()[2])
+        elif l.startswith("EDIFF ") and cur is not None:
+            d_ = parse_fields(l)
+            ed[cur] = (float.fromhex(d_["de"]), d_["err"])
+    ml, where = [], []
+    for k, c in enumerate(cases):
+        cs = impl.get(k)
+        run.dist("energy_difference:%s" % c["kind"])
+        rp = {"kind": "ediff", "case": c}
+        if cs is None or not cs["complete"] or len(cs["steps"]) != 4 or k not in ed or any("err=ok" not in l for l in cs["config"]):
+            run.mismatch("energy_difference", c, ((cs or {}).get("config", []) + (cs or {}).get("raw", []))[-3:], "complete run")
+            continue
+        de, err = ed[k]
+        before, after, nxt = cs["steps"][1], cs["steps"][2], cs["steps"][3]
+        xs = c["xs"][1]
+        d = {"lk": -1.0, "uk": -1.0, "k0": c["k"]}
+        E0, _, _ = spec_terms(c, d, fr(c["k"]), c["centers"], xs)
+        c2 = c["c2"] if (c["c2"] is not None and c["kind"] == "harmonic") else c["centers"]     # linear: only the force constant is read
+        E1, _, _ = spec_terms(c, d, fr(c["k2"] if c["k2"] is not None else c["k"]), c2, xs)
+        if err != "ok" or not close(de, float(E1 - E0)):
+            run.violation("energy-difference:value", "%s restraint k %r centres %r at values %r, alternative k %r centres %r: energy_difference %r (err %s), closed forms give %r" % (c["kind"], c["k"], c["centers"], xs, c["k2"], c["c2"], de, err, float(E1 - E0)), rp)
+        if not (close(after["E"], before["E"]) and after["K"] == before["K"] and after["C"] == before["C"]):
+            run.violation("energy-difference:state-changed", "after energy_difference: energy/k/centres %r %r %r, before %r %r %r" % (after["E"], after["K"], after["C"], before["E"], before["K"], before["C"]), rp)
+        E3, F3, _ = spec_terms(c, d, fr(c["k"]), c["centers"], c["xs"][2])
+        if not close(nxt["E"], float(E3)) or not all(close(float(a), b) for a, b in zip(F3, nxt["F"])):
+            run.violation("energy-difference:next-step", "the step after energy_difference: energy %r forces %r, closed forms %r %r" % (nxt["E"], nxt["F"], float(E3), [float(f) for f in F3]), rp)
+        p = ["EDIFF", c["kind"], str(len(c["vars"]))]
+        for v in c["vars"]:
+            p += [hx(v["w"]), "1" if v["per"] else "0", hx(v.get("P", 1.0)), hx(v.get("wc", 0.0))]
+        p += [hx(x) for x in c["centers"]] + [hx(c["k"])] + [hx(x) for x in xs]
+        p += (["1", hx(c["k2"])] if c["k2"] is not None else ["0"])
+        p += (["1"] + [hx(x) for x in c["c2"]] if c["c2"] is not None else ["0"])
+        ml.append(" ".join(p))
+        where.append((c, de))
+        run.count("ediff%d" % k, True)
+    rc, mout, e = V.run_lines(runner.model, ml)
+    if len(mout) != len(where):
+        run.mismatch("energy_difference", "model run", len(where), len(mout))
+    for (c, de), line in zip(where, mout):
+        if not close(float.fromhex(line.strip()), de):
+            run.mismatch("energy_difference", c, de, float.fromhex(line.strip()))
+    cs = impl.get(n)
+    if cs and cs["complete"] and len(cs["steps"]) == 4:
+        a, b = cs["steps"][2], cs["steps"][3]
+        if (b["ST"], b["K"]) != (a["ST"], a["K"]) or b["TI"]:
+            run.violation("script:update-reruns-the-step", "staged k 2->4, N 2, 2 stages: after step 2 (stage %d, k %r) `cv bias r update` gives stage %d, k %r and writes %r" % (a["ST"], a["K"], b["ST"], b["K"], b["TI"]), {"kind": "script-update"})
+
+
 def tsf_part(run, runner):
     """timeStepFactor f > 1: the bias is updated every f steps.  Continuous schedules are evaluated at the updated steps
     (and are stale in between, by design); staged schedules test exact step numbers and miss them (recorded finding)."""
@@ -1471,7 +1566,7 @@ def check(run):
     if st is None:
         return
     model, exes = st
-    runner = Runner(model, exes["c06unit"])
+    runner = Runner(model, os.environ.get("C06_UNIT_EXE") or exes["c06unit"])      # C06_UNIT_EXE: an instrumented (gcov) build of the harness
 
     # ---- regression scenarios of the repaired defects (first: they are the minimised failing cases)
     wit = witness_cases()
@@ -1536,6 +1631,7 @@ def check(run):
     hist_part(run, r, runner, 40 if quick else 2500)
     manifold_part(run, r, runner, 60 if quick else 3000)
     kman_part(run, r, runner, 40 if quick else 1500)
+    script_part(run, r, runner, 30 if quick else 600)
     tsf_part(run, runner)
     ti_part(run, r, runner, 40 if quick else 1500)
     run.cov["correspondence"].update({"scenarios": len(cases), "regression_scenarios": len(wit)})
